@@ -175,13 +175,28 @@ pub fn generate_sel(seed: u64, tier: &str, sink: &mut Sink, only_refusal_bodies:
             oracle: o,
         });
     };
-    if only_refusal_bodies {
-        // a refusal that DECLARES its (huge) length: the cut must not follow the declaration
-        for (declared, len) in [(4usize << 20, 4usize << 20), (usize::MAX, 2 << 20), (20 * cap, 3 * cap)] {
-            let body: Vec<u8> = (0..len).map(|i| (i % 249) as u8).collect();
-            let head = format!("HTTP/1.1 407 Proxy Authentication Required\r\nContent-Length: {}\r\n\r\n", declared).into_bytes();
-            run(407, head.clone(), "valid", body.clone(), 0, 0, true, &mut rng, sink);
-            run(407, head, "valid", body, 2, 3, false, &mut rng, sink);
+    {
+        // a refusal whose body is SHORTER than its own framing says, or whose framing fields are unusable: the
+        // proxy's reply to a CONNECT is reported as a connect error with that status, whatever it says about a
+        // body (seed C12-seed10: the refusal read through the response body readers)
+        for (k, (status, fields, body)) in [
+            (407u16, &b"Content-Length: 100\r\n"[..], &b"only forty bytes of the promised hundred"[..]),
+            (304, b"Content-Length: 120\r\n", b""),
+            (503, b"Transfer-Encoding: chunked\r\n", b"20\r\ncut inside the fi"),
+            (502, b"Content-Length: 5\r\nContent-Length: 6\r\n", b"hello!"),
+            (403, b"Content-Length: abc\r\n", b"denied"),
+            (401, b"Transfer-Encoding: chunked\r\n", b"zz\r\nnot chunked at all"),
+            (204, b"Content-Length: 3\r\n", b"abc"),
+            (500, b"Content-Length: 0\r\n", b"more than it says"),
+        ]
+        .into_iter()
+        .enumerate()
+        {
+            let mut head = format!("HTTP/1.1 {} Refused\r\n", status).into_bytes();
+            head.extend_from_slice(fields);
+            head.extend_from_slice(b"\r\n");
+            run(status, head.clone(), "valid", body.to_vec(), k % 4, k % 5, true, &mut rng, sink);
+            run(status, head, "valid", body.to_vec(), (k + 1) % 4, (k + 2) % 5, false, &mut rng, sink);
         }
         // refusal bodies that are text in some language: whatever the library does with the body of a refusal
         // (keep it, cut it, quote it in the error message) works for multi-byte characters at every offset
@@ -192,6 +207,15 @@ pub fn generate_sel(seed: u64, tier: &str, sink: &mut Sink, only_refusal_bodies:
                 body.extend_from_slice(unit.repeat(200).as_bytes());
                 run(403, b"HTTP/1.1 403 Forbidden\r\n\r\n".to_vec(), "valid", body, k % 4, (k + unit.len()) % 5, true, &mut rng, sink);
             }
+        }
+    }
+    if only_refusal_bodies {
+        // a refusal that DECLARES its (huge) length: the cut must not follow the declaration
+        for (declared, len) in [(4usize << 20, 4usize << 20), (usize::MAX, 2 << 20), (20 * cap, 3 * cap)] {
+            let body: Vec<u8> = (0..len).map(|i| (i % 249) as u8).collect();
+            let head = format!("HTTP/1.1 407 Proxy Authentication Required\r\nContent-Length: {}\r\n\r\n", declared).into_bytes();
+            run(407, head.clone(), "valid", body.clone(), 0, 0, true, &mut rng, sink);
+            run(407, head, "valid", body, 2, 3, false, &mut rng, sink);
         }
         for len in [cap - 1, cap, cap + 1, 3 * cap, 1 << 20, 4 << 20] {
             let body: Vec<u8> = (0..len).map(|i| (i % 251) as u8).collect();
